@@ -6,7 +6,9 @@
    further user action (VNew / VEdit / VStartTimer) and no clock advance (VAdvance), the driver and the workers ALONE -
    labels VStepBegin, VRetryBegin, VCall, VFire, VStepEnd, VWorkStart, VWorkEnd ([driver_label] / [driver_only]) - bring
    the system to rest:  vs_pc = PSelect, no pending fire, vs_results = vs_accepted = vs_running = []  ([at_rest]).
-   No existing file is modified.
+   The model (VSys.v) includes the transient failure of the store's Pop inside MarkAsDispatched: the state s may be the
+   result of such failures; the continuation is fault-free and disciplined by construction (next_ok: next_driver_label
+   never proposes a failed MarkAsDispatched and answers a DispatchErr with Retry(DispatchErr)).
 
    THE UNCONDITIONAL STATEMENT IS FALSE (section 7; both witnesses are accepted traces, vtimer_started = true)
      VC05_quiescence_refuted_schedule_at_now   schedule "every minute" (it advances by 60 s at every occurrence), but the
@@ -19,8 +21,10 @@
          same conclusion.  (Instants are integers - nanoseconds -, so "the next occurrence is strictly later" IS progress
          by a fixed amount, d = 1: occurrences cannot accumulate below now.  See the _strict forms.)
      Both are instances of spin_never_rests: in a reachable state of a started store in which every pending occurrence
-     is due and "re-spins" ([Respin]: whatever Pop pushes for it is due at once) no driver-only continuation reaches rest
-     - proved from the safety theorem VC05_rest_no_due and driver_step_cron (a driver / worker label leaves the clock
+     is due and "re-spins" ([Respin]: whatever Pop pushes for it is due at once) no driver-only continuation q with
+     vdriver_ok (tr ++ q) (the driver answers DispatchErr with Retry, or no Pop fails) reaches rest; without that
+     hypothesis a failed Pop answered by Step strands the system "at rest": VC05_spin_stranded
+     - proved from the safety theorem VC05_rest_no_due_state and driver_step_cron (a driver / worker label leaves the clock
      alone, and the pending set too unless the store pops).
 
    PROVED, for EVERY schedule function nxt, EVERY scheduler variant sc (no field of sc matters: scfg_pinned included)
@@ -39,8 +43,8 @@
      VC05_quiescence_reachable   accepted trace reaching s (ANY reachable s, vtimer_started not needed)  ==>  exists q s',
                           driver_only q, vrun nxt sc s q = Some s', s' at rest (all five conditions), vs_now s' = vs_now s,
                           pend_ext (vs_cron s) (vs_cron s')  (what is pending in s' was pending in s or is newer).
-     VC05_every_due_occurrence_is_served   ... and vtimer_started tr = true  ==>  additionally (by VC05_rest_no_due on
-                          tr ++ q) nothing pending in s' is due, and every occurrence that was pending and due in s is no
+     VC05_every_due_occurrence_is_served   ... and vtimer_started tr = true, vdriver_ok tr = true  ==>  additionally (by
+                          VC05_rest_no_due_state on tr ++ q, driver_ok_app) nothing pending in s' is due, and every occurrence that was pending and due in s is no
                           longer pending in s' (no pending occurrence of s' has its insertion number) - the catch-up
                           occurrences pushed after it and due as well have been served too.
      VC05_quiescence_reachable_strict / VC05_every_due_occurrence_is_served_strict   the same with (H1) replaced by
@@ -48,11 +52,14 @@
      VC05_live_catch_up_computed / VC05_live_nonvacuous: a row "every minute", the clock jumps 3 min 20 s while the
      scheduler blocks in select: [drive] (the continuation as a program, drive_sound) serves 00:01, 00:02, 00:03 in 57
      labels, comes to rest armed for 00:04, vall_ok = true on the whole trace; the theorem applies to that state.
+     VC05_live_retry_computed / VC05_live_retry_by_theorem: a Pop has failed and Step has returned DispatchErr; [drive]
+     answers with Retry(DispatchErr), the task is found, dispatched and run; rest in 15 labels.
 
    WHAT IS MISSING
      - A row with ScheduleAtNow AND a strictly positive RandomizeScheduledAt offset does come to rest, but H2 excludes it.
      - Only EXISTENCE of a continuation is proved (the one computed by next_driver_label: workers first, the driver
-       always answers with Step, never with Retry); not that every fair interleaving of driver and workers reaches rest.
+       answers a DispatchErr with Retry and everything else with Step); not that every fair interleaving of driver and
+       workers reaches rest.
      - No bound on the length of q is stated (the proof gives one: the measure below).
 
    HOW
@@ -61,8 +68,9 @@
        returned under the id it is known by, or under fresh_id (a string longer than every id seen) at first sight
        (head_accept_obs).  PRetryTD, the one program counter at which the monitor accepts no call, is dead in this
        configuration: invariant NT (MarkAsDone of the volatile repository cannot fail, so no TaskDone state ever carries
-       an update error and Retry(TaskDone) never starts).  PDisp1 is dead by VI3.
-     drive_step  Inv s (= VI3, VI4, R, NT), next_driver_label s = Some l  ==>  l is accepted, the clock is unchanged and
+       an update error and Retry(TaskDone) never starts).  PDisp1 / PRetryDE take real steps: GetById again, then the
+       model's own MarkAsDispatched (v_mark_disp).
+     drive_step  Inv s (= VI3, VI4, R False, NT), next_driver_label s = Some l  ==>  l is accepted, the clock is unchanged and
        EITHER arena / entries / pending / cr_ins are unchanged and Phi decreases, OR the store pops its head [Popped].
        Phi sc s = 40 * (nres + tok) + rank pc + 2 |accepted| + |running| :
          nres = |results| + |accepted| + |running|   (each costs one StepEnd);
@@ -72,6 +80,10 @@
                 the pending one, or - with getNextErr set, the timer restart coming first - "head due" (start_pending:
                 after the scheduler's StartTimer a fire is pending iff the head is due; stop_pending; Inv17);
                 a stale PFire2 is charged by what its NextScheduled comparison will answer ([announce]);
+                a Retry(DispatchErr t) - owed at PIdle / PEnd (SDispatchErr t), running at PRetryDE t - by what its
+                GetById will find ([tokR]: nothing: 1; a Scheduled task not yet due: 1 and getNextErr gets set;
+                otherwise 2: the dispatch and either the run it starts or one more DispatchErr round, which then
+                finds nothing because a MarkAsDispatched that does not pop deletes the record);
          rank = position inside Step (the program-counter graph is acyclic between two StepEnds).
      pop_measure (H1, H2)  P4 = sum over pending p of  2 * gof p + dueb p,  gof p = how many occurrences of p's entry
        (p included) can be due at this clock reading = (now + 1ms - shift - occ) / d + 1 (0 if negative), shift = the
@@ -223,7 +235,10 @@ Section VLive.
     | (id, t) :: _ => Some (VWorkStart id (vs_now s) t)
     | [] =>
     match vs_pc s with
-    | PIdle => Some VStepBegin
+    | PIdle => match vs_retry s with
+               | Some (SDispatchErr t) => Some (VRetryBegin (SDispatchErr t))   (* a DispatchErr is answered by Retry *)
+               | _ => Some VStepBegin
+               end
     | PStep0 => Some (if vs_err s then VCall CStop RUnit else VCall CLtue (RBool false))
     | PRestart1 _ => Some (VCall CStop RUnit)
     | PRestart2 _ => Some (VCall CStart RUnit)
@@ -259,6 +274,7 @@ Section VLive.
     destruct (vs_accepted s) as [|[i t] a]; [|discriminate].
     destruct (vs_pc s); try discriminate; try (destruct (vs_err s); discriminate);
       try (destruct (vs_last s); discriminate); try (destruct (pt_min None _); discriminate).
+    - destruct (vs_retry s) as [[]|]; discriminate.
     - destruct (vs_results s) as [|[i o] r]; [|destruct o; discriminate].
       destruct (tm_pending _); [discriminate|]. intros _. left. reflexivity.
     - intros _. right. eauto.
@@ -277,9 +293,20 @@ Section VLive.
     match next_scheduled (vs_cron s) with Some t => t_equal t (t_sched next) | None => false end
     && (negb (sc_clock_check sc) || negb (t_after (t_sched next) (vs_now s))).
   (* tok: an upper bound on the number of StepEnd still to come that are not owed to a queued / running / accepted task *)
+  (* what a Retry(DispatchErr t) that begins now costs (it reads the record again: GetById) *)
+  Definition tokR (s : vsys) (t : task) : nat :=
+    match rec_get (vs_record s) (t_id t) with
+    | None => 1 + lastn s + 3 * b2n (effI s)
+    | Some t' =>
+      match t_state t' with
+      | Scheduled => if t_after (t_sched t') (vs_now s) then 1 + 3 * b2n (hd_due s) else 2 + lastn s + 3 * b2n (effI s)
+      | _ => 2 + lastn s + 3 * b2n (effI s)
+      end
+    end%nat.
   Definition tok (sc : scfg) (s : vsys) : nat :=
     match vs_pc s with
-    | PIdle | PStep0 => lastn s + 3 * b2n (effI s)
+    | PIdle => match vs_retry s with Some (SDispatchErr t) => tokR s t | _ => lastn s + 3 * b2n (effI s) end
+    | PStep0 => lastn s + 3 * b2n (effI s)
     | PRestart1 KStep | PRestart2 KStep => lastn s + 3 * b2n (hd_due s)
     | PRestart3 KStep | PStepMain => lastn s + 3 * b2n (fpend s)
     | PRestart1 KRetry | PRestart2 KRetry => 1 + lastn s + 3 * b2n (hd_due s)
@@ -288,9 +315,10 @@ Section VLive.
     | PFire1 => 3 + 3 * b2n (fpend s)
     | PFire2 next => if announce sc s next then 3 + 3 * b2n (fpend s)
                      else 1 + 3 * b2n (if sc_err_on_mismatch sc then hd_due s else fpend s)
-    | PDisp1 _ _ => 0
-    | PDisp2 _ _ => 2 + lastn s + 3 * b2n (effI s)
-    | PRetryDE _ | PEnd _ _ => 1 + lastn s + 3 * b2n (effI s)
+    | PDisp1 _ _ | PDisp2 _ _ => 2 + lastn s + 3 * b2n (effI s)
+    | PRetryDE t => tokR s t
+    | PEnd (SDispatchErr t) _ => 1 + tokR s t
+    | PEnd _ _ => 1 + lastn s + 3 * b2n (effI s)
     | PRetryTD _ _ => 0
     end%nat.
   Definition rank (pc : spc) : nat :=
@@ -314,14 +342,16 @@ Section VLive.
     vstep sc s l = Some s' /\ driver_label l = true /\ vs_now s' = vs_now s
     /\ ((same_core (vs_cron s) (vs_cron s') /\ (Phi sc s' < Phi sc s)%nat) \/ Popped sc s s').
 
+  (* the timer facts RC (R False) hold of every accepted trace, whatever the driver did: that is all that is needed here *)
   Record Inv (sc : scfg) (s : vsys) : Prop := mkInv {
-    i3 : VI3 (sc_clock_check sc = true) s; i4 : VI4 nxt s; iR : R s; iNT : NT s }.
+    i3 : VI3 (sc_clock_check sc = true) True s; i4 : VI4 nxt s; iR : R False s; iNT : NT s }.
   Lemma Inv_init sc : Inv sc vsys_init.
   Proof. constructor; [apply VI3_init | apply VI4_init | apply R_init | apply NT_init]. Qed.
   Lemma Inv_step sc s l s' : Inv sc s -> vstep sc s l = Some s' -> Inv sc s'.
   Proof.
     intros [I3 I4 IR INT] H. constructor;
-      [eapply vi3_step; eauto | eapply vi4_step; eauto | eapply R_step; eauto | eapply NT_step; eauto].
+      [eapply vi3_step; [intros _; exact I | exact I3 | exact H] | eapply vi4_step; eauto
+       | eapply R_step; [exact I3 | exact I4 | exact IR | intros [] | exact H] | eapply NT_step; eauto].
   Qed.
   Lemma Inv_run sc q : forall s s', Inv sc s -> vrun nxt sc s q = Some s' -> Inv sc s'.
   Proof.
@@ -343,7 +373,7 @@ Section VLive.
     intros I. destruct (start_rearmed c now I) as [_ X]. apply rearmed_pending in X. rewrite X. reflexivity.
   Qed.
 
-  Ltac phi := unfold Phi, nres, tok, rank, lastn, effI, effS, fpend, hd_due; vf.
+  Ltac phi := unfold Phi, nres, tok, tokR, rank, lastn, effI, effS, fpend, hd_due; vf.
   (* steps that leave pc, flags and store alone *)
   Ltac phi_frame :=
     match goal with
@@ -393,16 +423,26 @@ Section VLive.
       apply (fresh_id_notin (map snd (vs_ids s))). rewrite <- E. apply in_map_iff. exists (a, b). split; [reflexivity | exact Hin].
   Qed.
 
+  (* the model's own MarkAsDispatched never reports the transient Pop failure *)
+  Lemma v_mark_disp_not_other s id b :
+    cret_eqb (RRes (snd (v_mark_disp nxt s id))) (RRes (RErr EOther)) && b = false.
+  Proof.
+    unfold v_mark_disp.
+    repeat match goal with |- context [match ?x with _ => _ end] => destruct x end; reflexivity.
+  Qed.
+
   Lemma drive_pc sc s l :
     Inv sc s -> vs_running s = [] -> vs_accepted s = [] -> next_driver_label s = Some l -> exists s', Good sc s l s'.
   Proof.
     intros [I3 I4 IR INT] Rn Ac N. unfold next_driver_label in N. rewrite Rn, Ac in N.
-    pose proof (rc17 _ _ (r_rc s IR)) as I17. pose proof (w_inv nxt s I4) as I15.
-    pose proof (v_pc _ s I3) as Ipc3.
+    pose proof (rc17 _ _ (r_rc False s IR)) as I17. pose proof (w_inv nxt s I4) as I15.
     destruct (vs_pc s) eqn:P.
     - (* PIdle *)
-      inv N. eexists. split. { unfold vsys_step. rewrite P. reflexivity. }
-      good_frame. phi. rewrite P. lia.
+      destruct (vs_retry s) as [[| |ok0 t0|t0|i0|i0 o0 u0|]|] eqn:Rt; cbv beta iota in N; inv N;
+        try (eexists; split; [unfold vsys_step; rewrite P; reflexivity|]; good_frame; phi; rewrite P, Rt; lia).
+      (* a DispatchErr is answered by Retry *)
+      eexists. split. { unfold vsys_step. rewrite P, Rt, sstate_eqb_refl. reflexivity. }
+      good_frame. phi. rewrite P, Rt. lia.
     - (* PStep0 *)
       destruct (vs_err s) eqn:E; inv N.
       + eexists. split. { unfold vsys_step. rewrite P, E. cbn. reflexivity. }
@@ -425,9 +465,10 @@ Section VLive.
       destruct (vs_last s) as [t|] eqn:L; inv N.
       + (* MarkAsDispatched(lastTask) *)
         destruct (v_mark_disp nxt s (t_id t)) as [s1 x] eqn:M. cbn [snd].
-        destruct (v_mark_disp_frame nxt s _ s1 x M) as (M1 & M2 & M3 & M4 & M5 & M6 & M7 & M8 & M9 & M10 & _).
+        destruct (v_mark_disp_frame nxt s _ s1 x M) as (M1 & M2 & M3 & M4 & M5 & M6 & M7 & M8 & M9 & M10 & Mrec & Merr).
+        pose proof (v_mark_disp_not_other s (t_id t) (head_bound s (t_id t))) as NF. rewrite M in NF. cbn [snd] in NF.
         eexists. split.
-        { unfold vsys_step. rewrite P, L, String.eqb_refl, M, cret_eqb_refl. reflexivity. }
+        { unfold vsys_step. rewrite P, L, String.eqb_refl, NF, M, cret_eqb_refl. reflexivity. }
         split; [reflexivity|]. split; [destruct (is_err_res x); vf; exact M2|].
         unfold v_mark_disp in M.
         match type of M with (if ?b then _ else _) = _ => destruct b eqn:B end.
@@ -436,11 +477,12 @@ Section VLive.
           destruct (pop_rearmed nxt (vs_cron s) (vs_now s) h I17 I15 Hm) as [_ PR]. apply rearmed_pending in PR.
           destruct (pop nxt (vs_cron s) (vs_now s)) as [c' o] eqn:Pp. cbn [fst] in PR. inv M. cbn [is_err_res].
           exists h. split; [exact Hm|]. split; [vf; rewrite Pp; reflexivity|]. intros D D'.
-          unfold hd_due in D, D'. vf. phi. rewrite P, L, PR, D'. rewrite andb_false_r. cbn [b2n]. lia.
+          unfold hd_due in D, D'. vf. phi. rewrite P, L, PR, D'. rewrite andb_false_r. cbn [b2n]. clear NF B Merr Mrec. lia.
         * left.
           assert (Ec : vs_cron s1 = vs_cron s) by (destruct (rec_get (vs_record s) (t_id t)); inv M; reflexivity).
           split; [destruct (is_err_res x); vf; rewrite Ec; apply same_core_refl|].
-          destruct (is_err_res x); phi; rewrite P, L, ?Ec, ?M2, ?M6, ?M7, ?M8; bools s.
+          destruct (is_err_res x) eqn:Ex; phi; rewrite P, L, ?Ec, ?M2, ?M6, ?M7, ?M8, ?(Merr eq_refl); cbv beta iota;
+            clear NF Ex Merr B M Mrec; bools s.
       + eexists. split. { unfold vsys_step. rewrite P, L. cbn. reflexivity. }
         good_frame. phi. rewrite P, L. bools s.
     - (* PSelect *)
@@ -483,25 +525,51 @@ Section VLive.
       + eexists. split.
         { unfold vsys_step. rewrite P. cbv beta iota zeta. rewrite cret_eqb_refl. unfold announce in A. rewrite A. reflexivity. }
         good_frame. phi. rewrite P, A. lia.
-    - (* PDisp1: dead *) contradiction Ipc3.
+    - (* PDisp1: Retry(DispatchErr) found the task again and dispatches it *)
+      inv N. destruct (v_mark_disp nxt s (t_id t)) as [s1 x] eqn:M. cbn [snd].
+      destruct (v_mark_disp_frame nxt s _ s1 x M) as (M1 & M2 & M3 & M4 & M5 & M6 & M7 & M8 & M9 & M10 & Mrec & Merr).
+      pose proof (v_mark_disp_not_other s (t_id t) (head_bound s (t_id t))) as NF. rewrite M in NF. cbn [snd] in NF.
+      eexists. split.
+      { unfold vsys_step. rewrite P, String.eqb_refl, NF, M, cret_eqb_refl. reflexivity. }
+      split; [reflexivity|]. split; [destruct (is_err_res x); vf; exact M2|].
+      unfold v_mark_disp in M.
+      match type of M with (if ?b then _ else _) = _ => destruct b eqn:B end.
+      + (* the store pops *)
+        right. destruct (pt_min None (cr_pending (vs_cron s))) as [h|] eqn:Hm; [|discriminate B].
+        destruct (pop_rearmed nxt (vs_cron s) (vs_now s) h I17 I15 Hm) as [_ PR]. apply rearmed_pending in PR.
+        destruct (pop nxt (vs_cron s) (vs_now s)) as [c' o] eqn:Pp. cbn [fst] in PR. inv M. cbn [is_err_res].
+        exists h. split; [exact Hm|]. split; [vf; rewrite Pp; reflexivity|]. intros D D'.
+        unfold hd_due in D, D'. vf. phi. rewrite P, PR, D'. rewrite andb_false_r. clear NF B Merr Mrec.
+        destruct (vs_err s); cbn [b2n]; lia.
+      + left.
+        assert (Ec : vs_cron s1 = vs_cron s) by (destruct (rec_get (vs_record s) (t_id t)); inv M; reflexivity).
+        split; [destruct (is_err_res x); vf; rewrite Ec; apply same_core_refl|].
+        destruct (is_err_res x) eqn:Ex; phi; rewrite P, ?Ec, ?M2, ?M3, ?M4, ?M6, ?M7, ?M8, ?(Merr eq_refl); cbv beta iota;
+          clear NF Ex Merr B M Mrec; lia.
     - (* PDisp2 *)
       inv N. unfold get_by_id_ret. destruct (rec_get (vs_record s) (t_id t)) as [t'|] eqn:G.
       + eexists. split. { unfold vsys_step. rewrite P, String.eqb_refl, G, cret_eqb_refl. reflexivity. }
         good_frame. unfold Phi, nres, tok, rank, lastn. vf. rewrite P, Ac, app_length.
         replace (effI _) with (effI s) by reflexivity. cbn [List.length app]. lia.
       + eexists. split. { unfold vsys_step. rewrite P, String.eqb_refl, G, cret_eqb_refl. reflexivity. }
-        good_frame. unfold Phi, nres, tok, rank, lastn. vf. rewrite P.
+        good_frame. unfold Phi, nres, tok, tokR, rank, lastn. vf. rewrite P, G.
         replace (effI _) with (effI s) by reflexivity. lia.
-    - (* PRetryDE: the record is gone *)
-      inv N. unfold get_by_id_ret. rewrite Ipc3.
-      eexists. split. { unfold vsys_step. rewrite P, String.eqb_refl, Ipc3, cret_eqb_refl. reflexivity. }
-      good_frame. unfold Phi, nres, tok, rank, lastn. vf. rewrite P.
-      replace (effI _) with (effI s) by reflexivity. lia.
+    - (* PRetryDE: GetById again *)
+      inv N. unfold get_by_id_ret. destruct (rec_get (vs_record s) (t_id t)) as [t'|] eqn:G.
+      + destruct (t_state t') eqn:Es; [destruct (t_after (t_sched t') (vs_now s)) eqn:Af|..];
+          (eexists; split; [unfold vsys_step; rewrite P, String.eqb_refl, G, cret_eqb_refl, Es, ?Af; reflexivity|]);
+          good_frame; unfold Phi, nres, tok, tokR, rank, lastn; vf; rewrite P, G, Es, ?Af;
+          try (replace (effI _) with (effI s) by reflexivity); try lia.
+        unfold effI, hd_due. vf. lia.
+      + eexists. split. { unfold vsys_step. rewrite P, String.eqb_refl, G, cret_eqb_refl. reflexivity. }
+        good_frame. unfold Phi, nres, tok, tokR, rank, lastn. vf. rewrite P, G.
+        replace (effI _) with (effI s) by reflexivity. lia.
     - (* PRetryTD: dead *) destruct INT as [X _]. rewrite P in X. contradiction X.
     - (* PEnd *)
       inv N. eexists. split. { unfold vsys_step. rewrite P, sstate_eqb_refl, Bool.eqb_reflx. cbn [andb]. reflexivity. }
-      good_frame. unfold Phi, nres, tok, rank, lastn. vf. rewrite P.
-      replace (effI _) with (effI s) by reflexivity. lia.
+      good_frame. unfold Phi, nres, tok, tokR, rank, lastn. vf. rewrite P.
+      destruct st as [| |ok0 t0|t0|i0|i0 o0 u0|]; try (destruct ok0); try (destruct u0); cbn [negb];
+        try (replace (effI _) with (effI s) by reflexivity); try (replace (hd_due _) with (hd_due s) by reflexivity); try lia.
   Qed.
 
   Lemma drive_step sc s l : Inv sc s -> next_driver_label s = Some l -> exists s', Good sc s l s'.
@@ -509,6 +577,48 @@ Section VLive.
     intros I N. destruct (vs_running s) as [|i r] eqn:Rn; [|apply drive_worker; [left; rewrite Rn; discriminate | exact N]].
     destruct (vs_accepted s) as [|a r] eqn:Ac; [|apply drive_worker; [right; rewrite Ac; discriminate | exact N]].
     apply drive_pc; assumption.
+  Qed.
+
+  (* the label chosen is that of a disciplined driver (a DispatchErr is answered by Retry) and of a fault-free store
+     (never the transient Pop failure) *)
+  Lemma next_ok s l : next_driver_label s = Some l ->
+    match l with VStepBegin => negb (owed s) | _ => true end = true /\ failed_mark l = false.
+  Proof.
+    unfold next_driver_label. destruct (vs_running s); [|intros E; inv E; auto].
+    destruct (vs_accepted s) as [|[i t] a]; [|intros E; inv E; auto].
+    destruct (vs_pc s); try (intros E; inv E; auto; fail).
+    - unfold owed. destruct (vs_retry s) as [[]|]; intros E; inv E; auto.
+    - destruct (vs_err s); intros E; inv E; auto.
+    - destruct (vs_last s); intros E; inv E; auto. split; [reflexivity|]. cbn [failed_mark].
+      pose proof (v_mark_disp_not_other s (t_id t) true) as X. rewrite andb_true_r in X.
+      destruct (snd (v_mark_disp nxt s (t_id t))) as [| | |[]]; try reflexivity. discriminate X.
+    - destruct (vs_results s) as [|[i o] r]; [destruct (tm_pending _); intros E; inv E; auto|].
+      destruct o; intros E; inv E; auto.
+    - destruct (pt_min None _); intros E; inv E; auto.
+    - intros E. inv E. split; [reflexivity|]. cbn [failed_mark].
+      pose proof (v_mark_disp_not_other s (t_id t) true) as X. rewrite andb_true_r in X.
+      destruct (snd (v_mark_disp nxt s (t_id t))) as [| | |[]]; try reflexivity. discriminate X.
+  Qed.
+  Definition qok (s : vsys) (q : list vlabel) : Prop :=
+    vdispatch_err_retried (owed s) q = true /\ has_failed_mark q = false.
+  Lemma qok_nil s : qok s [].
+  Proof. split; reflexivity. Qed.
+  Lemma qok_cons sc s l s1 q : next_driver_label s = Some l -> vstep sc s l = Some s1 -> qok s1 q -> qok s (l :: q).
+  Proof.
+    intros N H [Q1 Q2]. destruct (next_ok s l N) as [X1 X2]. split.
+    - cbn [vdispatch_err_retried]. rewrite X1, <- (owed_step nxt sc s l s1 H). exact Q1.
+    - cbn [has_failed_mark]. rewrite X2. exact Q2.
+  Qed.
+  Lemma has_failed_mark_app a b : has_failed_mark (a ++ b) = has_failed_mark a || has_failed_mark b.
+  Proof. induction a as [|l a IH]; cbn [app has_failed_mark]; [reflexivity|]. rewrite IH, orb_assoc. reflexivity. Qed.
+  (* appended to an accepted trace whose driver was in order, it gives a trace whose driver is in order *)
+  Lemma driver_ok_app sc tr s q :
+    vrun nxt sc vsys_init tr = Some s -> qok s q -> vdriver_ok tr = true -> vdriver_ok (tr ++ q) = true.
+  Proof.
+    intros H [Q1 Q2] Ok. unfold vdriver_ok, vtrace_disciplined in *.
+    rewrite vdispatch_err_retried_app, has_failed_mark_app, Q2, orb_false_r.
+    pose proof (owed_run nxt sc tr _ _ H) as E. change (owed vsys_init) with false in E.
+    rewrite <- E, Q1, andb_true_r. exact Ok.
   Qed.
 
   (* ================================================================================================ *)
@@ -688,7 +798,7 @@ Section VLive.
     Definition NoNow (s : vsys) : Prop := NoNowC (vs_cron s).
     Definition Quiesced (sc : scfg) (s : vsys) : Prop :=
       exists q s', driver_only q = true /\ vrun nxt sc s q = Some s' /\ at_rest s' = true
-                   /\ vs_now s' = vs_now s /\ pend_ext (vs_cron s) (vs_cron s').
+                   /\ vs_now s' = vs_now s /\ pend_ext (vs_cron s) (vs_cron s') /\ qok s q.
 
     Theorem quiesce_inv sc : forall n m s, P4 s = n -> Phi sc s = m -> Inv sc s -> NoNow s -> Quiesced sc s.
     Proof.
@@ -700,9 +810,9 @@ Section VLive.
           pose proof (same_core_pend_ext _ _ C) as CE. destruct C as (C1 & C2 & C3 & C4).
           assert (E4 : P4 s1 = n) by (unfold P4, P4c; rewrite C3, Enow; exact En).
           assert (NN1 : NoNow s1) by (unfold NoNow, NoNowC; rewrite C3; exact NN).
-          destruct (IHm (Phi sc s1) ltac:(lia) s1 E4 eq_refl I1 NN1) as (q & s' & Dq & Hq & Rq & Nq & Pq).
+          destruct (IHm (Phi sc s1) ltac:(lia) s1 E4 eq_refl I1 NN1) as (q & s' & Dq & Hq & Rq & Nq & Pq & Oq).
           exists (l :: q), s'. split; [cbn; rewrite D; exact Dq|]. split; [cbn [vrun]; rewrite H; exact Hq|].
-          split; [exact Rq|]. split; [congruence|]. eapply pend_ext_trans; eauto.
+          split; [exact Rq|]. split; [congruence|]. split; [eapply pend_ext_trans; eauto | eapply qok_cons; eauto].
         + (* the store pops *)
           assert (I1 : Inv sc s1) by (eapply Inv_step; eauto).
           pose proof (w_inv nxt s (i4 sc s I)) as I15.
@@ -715,11 +825,12 @@ Section VLive.
             - assert (Lt' : (Phi sc s1 < m)%nat) by (rewrite <- Em; apply PL; [exact D0 | unfold hd_due; rewrite Enow; exact D1]).
               assert (E4 : P4 s1 = n) by (unfold P4; rewrite Enow, <- En; exact Eq).
               exact (IHm (Phi sc s1) Lt' s1 E4 eq_refl I1 NN1). }
-          destruct Q1 as (q & s' & Dq & Hq & Rq & Nq & Pq).
+          destruct Q1 as (q & s' & Dq & Hq & Rq & Nq & Pq & Oq).
           exists (l :: q), s'. split; [cbn; rewrite D; exact Dq|]. split; [cbn [vrun]; rewrite H; exact Hq|].
-          split; [exact Rq|]. split; [congruence|]. eapply pend_ext_trans; eauto.
+          split; [exact Rq|]. split; [congruence|]. split; [eapply pend_ext_trans; eauto | eapply qok_cons; eauto].
       - destruct (next_none s N) as [X|(id & o & X)].
-        + exists [], s. split; [reflexivity|]. split; [reflexivity|]. split; [exact X|]. split; [reflexivity | apply pend_ext_refl].
+        + exists [], s. split; [reflexivity|]. split; [reflexivity|]. split; [exact X|]. split; [reflexivity|].
+          split; [apply pend_ext_refl | apply qok_nil].
         + exfalso. destruct (iNT sc s I) as [Y _]. rewrite X in Y. exact Y.
     Qed.
   End Progress.
@@ -783,6 +894,22 @@ Section Traces.
     Hypothesis Hnxt : forall e t, inst t + d <= inst (nxt e t).
 
     (* quiescence is reachable by the driver and the workers alone *)
+    Lemma quiescence_reachable_ok tr s :
+      vrun nxt sc vsys_init tr = Some s ->
+      (forall p, In p (cr_pending (vs_cron s)) -> existsb is_now (pt_muts p) = false) ->
+      exists q s', driver_only q = true /\ vrun nxt sc s q = Some s'
+                   /\ vs_pc s' = PSelect /\ tm_pending (cr_timer (vs_cron s')) = false
+                   /\ vs_results s' = [] /\ vs_accepted s' = [] /\ vs_running s' = []
+                   /\ vs_now s' = vs_now s /\ pend_ext (vs_cron s) (vs_cron s')
+                   (* the continuation is that of a disciplined driver over a fault-free store *)
+                   /\ vdispatch_err_retried (owed s) q = true /\ has_failed_mark q = false
+                   /\ (vdriver_ok tr = true -> vdriver_ok (tr ++ q) = true).
+    Proof.
+      intros H NN.
+      destruct (quiesce_inv nxt d Hd Hnxt sc _ _ s eq_refl eq_refl (Inv_reachable tr s H) NN) as (q & s' & D & Hq & R & En & PE & Oq).
+      apply at_rest_spec in R. destruct R as (R1 & R2 & R3 & R4 & R5). exists q, s'. repeat (split; [assumption|]).
+      split; [apply Oq|]. split; [apply Oq|]. exact (driver_ok_app nxt sc tr s q H Oq).
+    Qed.
     Theorem VC05_quiescence_reachable tr s :
       vrun nxt sc vsys_init tr = Some s ->
       (forall p, In p (cr_pending (vs_cron s)) -> existsb is_now (pt_muts p) = false) ->
@@ -791,15 +918,14 @@ Section Traces.
                    /\ vs_results s' = [] /\ vs_accepted s' = [] /\ vs_running s' = []
                    /\ vs_now s' = vs_now s /\ pend_ext (vs_cron s) (vs_cron s').
     Proof.
-      intros H NN.
-      destruct (quiesce_inv nxt d Hd Hnxt sc _ _ s eq_refl eq_refl (Inv_reachable tr s H) NN) as (q & s' & D & Hq & R & En & PE).
-      apply at_rest_spec in R. destruct R as (R1 & R2 & R3 & R4 & R5). exists q, s'. repeat (split; [assumption|]). exact PE.
+      intros H NN. destruct (quiescence_reachable_ok tr s H NN) as (q & s' & D & Hq & R1 & R2 & R3 & R4 & R5 & En & PE & _).
+      exists q, s'. repeat (split; [assumption|]). exact PE.
     Qed.
 
     (* ... and there nothing pending is due; every occurrence that was pending and due in s has been popped (its
        insertion number is not pending any more) - together with all the catch-up occurrences that came due after it *)
     Theorem VC05_every_due_occurrence_is_served tr s :
-      vrun nxt sc vsys_init tr = Some s -> vtimer_started tr = true ->
+      vrun nxt sc vsys_init tr = Some s -> vtimer_started tr = true -> vdriver_ok tr = true ->
       (forall p, In p (cr_pending (vs_cron s)) -> existsb is_now (pt_muts p) = false) ->
       exists q s', driver_only q = true /\ vrun nxt sc vsys_init (tr ++ q) = Some s'
                    /\ vs_pc s' = PSelect /\ tm_pending (cr_timer (vs_cron s')) = false
@@ -808,12 +934,12 @@ Section Traces.
                    /\ (forall p, In p (cr_pending (vs_cron s)) -> inst (t_sched (pt_task p)) <= inst (vs_now s) ->
                                  forall p', In p' (cr_pending (vs_cron s')) -> pt_ins p' <> pt_ins p).
     Proof.
-      intros H St NN.
-      destruct (VC05_quiescence_reachable tr s H NN) as (q & s' & D & Hq & R1 & R2 & R3 & R4 & R5 & En & PE).
+      intros H St Ok NN.
+      destruct (quiescence_reachable_ok tr s H NN) as (q & s' & D & Hq & R1 & R2 & R3 & R4 & R5 & En & PE & _ & _ & Ok').
       assert (H' : vrun nxt sc vsys_init (tr ++ q) = Some s') by (rewrite vrun_app, H; exact Hq).
       assert (St' : vtimer_started (tr ++ q) = true).
       { unfold vtimer_started in *. rewrite vstarted_flag_app, St. apply driver_only_flag. exact D. }
-      pose proof (VC05_rest_no_due nxt sc (tr ++ q) s' H' St' R1 R2) as ND.
+      pose proof (VC05_rest_no_due_state nxt sc (tr ++ q) s' H' (Ok' Ok) R1 R2 (started_at_select nxt sc _ s' H' St' R1)) as ND.
       exists q, s'. repeat (split; [assumption|]).
       intros p Hp Due p' Hp' E. pose proof (w_inv nxt s (i4 nxt sc s (Inv_reachable tr s H))) as I15.
       destruct PE as [_ PE]. destruct (PE p' Hp') as [X|X].
@@ -838,7 +964,7 @@ Proof.
 Qed.
 Theorem VC05_every_due_occurrence_is_served_strict nxt sc tr s :
   (forall e t, inst t < inst (nxt e t)) ->
-  vrun nxt sc vsys_init tr = Some s -> vtimer_started tr = true ->
+  vrun nxt sc vsys_init tr = Some s -> vtimer_started tr = true -> vdriver_ok tr = true ->
   (forall p, In p (cr_pending (vs_cron s)) -> existsb is_now (pt_muts p) = false) ->
   exists q s', driver_only q = true /\ vrun nxt sc vsys_init (tr ++ q) = Some s'
                /\ vs_pc s' = PSelect /\ tm_pending (cr_timer (vs_cron s')) = false
@@ -933,17 +1059,19 @@ Section Spin.
   Qed.
 
   (* from a reachable state of a started store in which every pending occurrence is due and re-spins, NO continuation
-     made of driver / worker labels ever reaches rest *)
+     made of driver / worker labels ever reaches rest - as long as the driver is in order (it answers DispatchErr with
+     Retry, or no Pop inside MarkAsDispatched fails: otherwise the system can be stranded "at rest" with the head due,
+     see VC05_spin_stranded) *)
   Theorem spin_never_rests sc tr s :
     vrun nxt sc vsys_init tr = Some s -> vtimer_started tr = true -> Spin s ->
-    forall q s', driver_only q = true -> vrun nxt sc s q = Some s' -> at_rest s' = false.
+    forall q s', driver_only q = true -> vdriver_ok (tr ++ q) = true -> vrun nxt sc s q = Some s' -> at_rest s' = false.
   Proof.
-    intros H St S q s' D Hq. destruct (at_rest s') eqn:R; [|reflexivity]. exfalso.
+    intros H St S q s' D Ok Hq. destruct (at_rest s') eqn:R; [|reflexivity]. exfalso.
     apply at_rest_spec in R. destruct R as (R1 & R2 & _).
     assert (H' : vrun nxt sc vsys_init (tr ++ q) = Some s') by (rewrite vrun_app, H; exact Hq).
     assert (St' : vtimer_started (tr ++ q) = true).
     { unfold vtimer_started in *. rewrite vstarted_flag_app, St. apply driver_only_flag. exact D. }
-    pose proof (VC05_rest_no_due nxt sc (tr ++ q) s' H' St' R1 R2) as ND.
+    pose proof (VC05_rest_no_due_state nxt sc (tr ++ q) s' H' Ok R1 R2 (started_at_select nxt sc _ s' H' St' R1)) as ND.
     destruct (spin_run sc q s s' D Hq S) as [Hne Hall].
     destruct (cr_pending (vs_cron s')) as [|p r] eqn:E; [contradiction Hne; reflexivity|].
     specialize (ND p (or_introl eq_refl)). destruct (Hall p (or_introl eq_refl)) as [X _]. lia.
@@ -973,17 +1101,18 @@ Theorem VC05_quiescence_refuted_schedule_at_now :
   /\ map (fun p => pt_muts p) (cr_pending (vs_cron s_now)) = [[MNow]]
   (* ... and no continuation by the driver and the workers alone ever comes to rest: each Pop pushes the next
      occurrence scheduled "now", which is due at once *)
-  /\ forall q s', driver_only q = true -> vrun ex_nxt scfg_fixed s_now q = Some s' -> at_rest s' = false.
+  /\ forall q s', driver_only q = true -> vdriver_ok q = true -> vrun ex_nxt scfg_fixed s_now q = Some s' -> at_rest s' = false.
 Proof.
   split; [exact ex_nxt_progress|].
   assert (H : vrun ex_nxt scfg_fixed vsys_init tr_now = Some s_now) by (vm_compute; reflexivity).
   assert (E : map (fun p => (pt_muts p, inst (t_sched (pt_task p)) <=? inst (vs_now s_now))) (cr_pending (vs_cron s_now))
               = [([MNow], true)]) by (vm_compute; reflexivity).
   split; [exact H|]. split; [reflexivity|]. split; [vm_compute; reflexivity|].
-  apply (spin_never_rests ex_nxt scfg_fixed tr_now s_now H eq_refl).
-  unfold Spin, SpinC. destruct (cr_pending (vs_cron s_now)) as [|p0 [|p1 r]]; try discriminate E.
-  cbn [map] in E. inversion E as [[E1 E2]]. split; [discriminate|].
-  intros p [<-|[]]. split; [apply Z.leb_le; exact E2 | rewrite E1; apply respin_now].
+  assert (SP : Spin ex_nxt s_now).
+  { unfold Spin, SpinC. destruct (cr_pending (vs_cron s_now)) as [|p0 [|p1 r]]; try discriminate E.
+    cbn [map] in E. inversion E as [[E1 E2]]. split; [discriminate|].
+    intros p [<-|[]]. split; [apply Z.leb_le; exact E2 | rewrite E1; apply respin_now]. }
+  intros q s' D Ok. apply (spin_never_rests ex_nxt scfg_fixed tr_now s_now H eq_refl SP q s' D). exact Ok.
 Qed.
 
 (* ---- witness 2: no mutator at all, but a schedule that does not advance ---- *)
@@ -998,17 +1127,18 @@ Qed.
 Theorem VC05_quiescence_refuted_stuck_schedule :
   vrun nxt_stuck scfg_fixed vsys_init tr_stuck = Some s_stuck /\ vtimer_started tr_stuck = true
   /\ map (fun p => pt_muts p) (cr_pending (vs_cron s_stuck)) = [[]]
-  /\ forall q s', driver_only q = true -> vrun nxt_stuck scfg_fixed s_stuck q = Some s' -> at_rest s' = false.
+  /\ forall q s', driver_only q = true -> vdriver_ok q = true -> vrun nxt_stuck scfg_fixed s_stuck q = Some s' -> at_rest s' = false.
 Proof.
   assert (H : vrun nxt_stuck scfg_fixed vsys_init tr_stuck = Some s_stuck) by (vm_compute; reflexivity).
   assert (E : map (fun p => (pt_muts p, inst (t_sched (pt_task p)) <=? inst (vs_now s_stuck))) (cr_pending (vs_cron s_stuck))
               = [([], true)]) by (vm_compute; reflexivity).
   assert (En : vs_now s_stuck = ex_t0) by (vm_compute; reflexivity).
   split; [exact H|]. split; [reflexivity|]. split; [vm_compute; reflexivity|].
-  apply (spin_never_rests nxt_stuck scfg_fixed tr_stuck s_stuck H eq_refl).
-  unfold Spin, SpinC. destruct (cr_pending (vs_cron s_stuck)) as [|p0 [|p1 r]]; try discriminate E.
-  cbn [map] in E. inversion E as [[E1 E2]]. split; [discriminate|].
-  intros p [<-|[]]. split; [apply Z.leb_le; exact E2 | rewrite E1, En; apply respin_stuck; cbn; lia].
+  assert (SP : Spin nxt_stuck s_stuck).
+  { unfold Spin, SpinC. destruct (cr_pending (vs_cron s_stuck)) as [|p0 [|p1 r]]; try discriminate E.
+    cbn [map] in E. inversion E as [[E1 E2]]. split; [discriminate|].
+    intros p [<-|[]]. split; [apply Z.leb_le; exact E2 | rewrite E1, En; apply respin_stuck; cbn; lia]. }
+  intros q s' D Ok. apply (spin_never_rests nxt_stuck scfg_fixed tr_stuck s_stuck H eq_refl SP q s' D). exact Ok.
 Qed.
 
 (* ================================================================================================ *)
@@ -1030,6 +1160,7 @@ Proof.
   unfold next_driver_label. destruct (vs_running s); [|intros E; inv E; reflexivity].
   destruct (vs_accepted s) as [|[i t] a]; [|intros E; inv E; reflexivity].
   destruct (vs_pc s); try (intros E; inv E; reflexivity).
+  - destruct (vs_retry s) as [[]|]; intros E; inv E; reflexivity.
   - destruct (vs_err s); intros E; inv E; reflexivity.
   - destruct (vs_last s); intros E; inv E; reflexivity.
   - destruct (vs_results s) as [|[i o] r]; [destruct (tm_pending _); intros E; inv E; reflexivity|].
@@ -1075,7 +1206,7 @@ Proof.
   destruct (cr_pending (vs_cron s_jump)) as [|p0 [|p1 r]] eqn:Ep; try discriminate E.
   cbn [map] in E. injection E as E1 E2 E3.
   assert (En0 : vs_now s_jump = T 200000000000 true) by (vm_compute; reflexivity).
-  destruct (VC05_every_due_occurrence_is_served ex_nxt scfg_fixed 60000000000 ltac:(lia) ex_nxt_progress tr_jump s_jump H eq_refl)
+  destruct (VC05_every_due_occurrence_is_served ex_nxt scfg_fixed 60000000000 ltac:(lia) ex_nxt_progress tr_jump s_jump H eq_refl eq_refl)
     as (q & s' & D & Hq & R1 & R2 & R3 & R4 & R5 & En & ND & SV).
   { rewrite Ep. intros p [<-|[]]. rewrite E2. reflexivity. }
   exists q, s'. repeat (split; [assumption|]). intros p' Hp'. rewrite <- E1. apply (SV p0); [rewrite Ep; left; reflexivity | rewrite En0; apply Z.leb_le; exact E3 | exact Hp'].
@@ -1088,6 +1219,51 @@ Example VC05_spin_computed :
     map (fun p => inst (t_sched (pt_task p)) <=? inst (vs_now s')) (cr_pending (vs_cron s'))))
   = (400%nat, false, 21%nat, [true]).
 Proof. vm_compute. reflexivity. Qed.
+
+(* a Pop inside MarkAsDispatched fails once (nothing popped, the fire is consumed, the timer idle): Step returns
+   DispatchErr; [drive] answers with Retry(DispatchErr), which finds the record again, dispatches (the store pops and
+   re-arms for 00:02), the task runs once; the system comes to rest in 15 labels *)
+Definition tr_fail : list vlabel :=
+  (ex_prefix ++
+   [VCall CGetNext (RRes (RTask ex_obs)); VCall CNextSched (RTime (Some ex_t1)); VStepEnd (SNextTask true (Some ex_obs)) false;
+    VStepBegin; VCall CLtue (RBool false); VCall (CMarkDisp "A") (RRes (RErr EOther)); VStepEnd (SDispatchErr ex_obs) false])%list.
+Definition s_fail : vsys := match vrun ex_nxt scfg_fixed vsys_init tr_fail with Some s => s | None => vsys_init end.
+Example VC05_live_retry_computed :
+  vrun ex_nxt scfg_fixed vsys_init tr_fail = Some s_fail /\ owed s_fail = true
+  /\ next_driver_label ex_nxt s_fail = Some (VRetryBegin (SDispatchErr ex_obs))
+  /\ (let (q, s') := drive ex_nxt scfg_fixed 100 s_fail in
+      (List.length q, at_rest s', map (fun x => (fst (fst x), inst (t_sched (snd x)))) (vs_starts s'),
+       map (fun p => (pt_ins p, inst (t_sched (pt_task p)))) (cr_pending (vs_cron s')), cr_timer (vs_cron s'),
+       vall_ok (tr_fail ++ q), vtrace_disciplined (tr_fail ++ q), has_failed_mark (tr_fail ++ q)))
+     = (15%nat, true, [("A", 60000000000)], [(2%nat, 120000000000)], mkTimer (Some 120000000000) false, true, true, true).
+Proof. split; [vm_compute; reflexivity|]. split; [vm_compute; reflexivity|]. split; vm_compute; reflexivity. Qed.
+(* the theorem applies to that state (the driver of tr_fail is disciplined so far: nothing has been answered yet) *)
+Example VC05_live_retry_by_theorem :
+  exists q s', driver_only q = true /\ vrun ex_nxt scfg_fixed vsys_init (tr_fail ++ q) = Some s'
+               /\ vs_pc s' = PSelect /\ tm_pending (cr_timer (vs_cron s')) = false
+               /\ (forall p, In p (cr_pending (vs_cron s')) -> inst (vs_now s') < inst (t_sched (pt_task p))).
+Proof.
+  assert (H : vrun ex_nxt scfg_fixed vsys_init tr_fail = Some s_fail) by (vm_compute; reflexivity).
+  assert (E : map (fun p => pt_muts p) (cr_pending (vs_cron s_fail)) = [[]]) by (vm_compute; reflexivity).
+  destruct (VC05_every_due_occurrence_is_served ex_nxt scfg_fixed 60000000000 ltac:(lia) ex_nxt_progress tr_fail s_fail H eq_refl eq_refl)
+    as (q & s' & D & Hq & R1 & R2 & _ & _ & _ & _ & ND & _).
+  { intros p Hp. apply (in_map (fun p => pt_muts p)) in Hp. rewrite E in Hp. destruct Hp as [<-|[]]. reflexivity. }
+  exists q, s'. repeat (split; [assumption|]). exact ND.
+Qed.
+
+(* the driver hypothesis of the two refutations (and of VC05_every_due_occurrence_is_served) is needed: from s_now a Pop
+   fails and the driver answers the DispatchErr with Step - the system is "at rest" (select, no fire) with the head due *)
+Definition obs_now : task :=
+  mkTask "a" "w" 0 Scheduled "" [] [("ngicks.ScheduleAtNow", ""); ("ngicks.ScheduleHash", "h")] ex_t0 ex_t0 None None None None.
+Definition q_strand : list vlabel :=
+  (firstn 9 (fst (drive ex_nxt scfg_fixed 12 s_now)) ++
+   [VCall (CMarkDisp "a") (RRes (RErr EOther)); VStepEnd (SDispatchErr obs_now) false;
+    VStepBegin; VCall CLtue (RBool false); VCall CTimerCh RUnit])%list.
+Example VC05_spin_stranded :
+  driver_only q_strand = true /\ vdriver_ok q_strand = false
+  /\ exists s', vrun ex_nxt scfg_fixed s_now q_strand = Some s' /\ at_rest s' = true
+                /\ map (fun p => inst (t_sched (pt_task p)) <=? inst (vs_now s')) (cr_pending (vs_cron s')) = [true].
+Proof. split; [vm_compute; reflexivity|]. split; [vm_compute; reflexivity|]. eexists. split; [vm_compute; reflexivity|]. vm_compute. split; reflexivity. Qed.
 
 Print Assumptions VC05_no_deadlock.
 Print Assumptions VC05_next_label_none_iff_rest.
@@ -1103,3 +1279,6 @@ Print Assumptions drive_sound.
 Print Assumptions VC05_live_catch_up_computed.
 Print Assumptions VC05_live_nonvacuous.
 Print Assumptions VC05_spin_computed.
+Print Assumptions VC05_live_retry_computed.
+Print Assumptions VC05_live_retry_by_theorem.
+Print Assumptions VC05_spin_stranded.
